@@ -248,6 +248,25 @@ def dtdPrint (m : IntMode) (n : Int) : Outcome (List Char) :=
             'T' :: (compStr hour 'H' ++ (compStr minute 'M' ++ secStr second nanos))
           else [])))
 
+/-- The statements of `Display` with the value narrowed to `u64` first
+(`let mut nanoseconds = self.0.unsigned_abs() as u64;`, then `/` and `%=` by the `u64` copies of the
+units): NOT what the code does — the seeded change C14-19, kept as the mutant against which
+`Dmn.C14.display_needs_i128` states that the 128-bit arithmetic of `dtdPrint` is needed. `/` and `%`
+cannot overflow, so there is one mode. -/
+def dtdPrintU64 (n : Int) : List Char :=
+  let a := (tU64.wrap (n.natAbs : Int)).toNat
+  let day := a / 86400000000000
+  let hour := (a % 86400000000000) / 3600000000000
+  let minute := (a % 3600000000000) / 60000000000
+  let second := (a % 60000000000) / 1000000000
+  let nanos := a % 1000000000
+  let sign : List Char := if n < 0 then ['-'] else []
+  if day = 0 ∧ hour = 0 ∧ minute = 0 ∧ second = 0 ∧ nanos = 0 then ['P', 'T', '0', 'S']
+  else sign ++ 'P' :: (compStr day 'D' ++
+    (if hour > 0 ∨ minute > 0 ∨ second > 0 ∨ nanos > 0 then
+       'T' :: (compStr hour 'H' ++ (compStr minute 'M' ++ secStr second nanos))
+     else []))
+
 /-! ## Dates (`i32` year, `u8` month and day) -/
 
 /-- `FeelDate::ym_duration` (`date.rs:194-210`): `i64` arithmetic on the widened fields; `self` is
